@@ -303,7 +303,7 @@ def main():
     print("MANIFEST.json: %d checks, %d not_applicable" % (len(checks), len(na)))
 
 
-HOOK_COMMITS = ["6f9adbc"]
+HOOK_COMMITS = ["6f9adbc", "a081719"]
 
 if __name__ == "__main__":
     main()
